@@ -322,3 +322,161 @@ Example load_instance :
   total_load 0%Z 1%Z Z.add Z.mul [(1%Z, sinks); ((-1)%Z, sources)] 7%Z = 2%Z /\
   total_load 0%Z 1%Z Z.add Z.mul [(1%Z, [merged_sink 0%Z 1%Z Z.add Z.mul [(1%Z, sinks); ((-1)%Z, sources)] 7%Z])] 7%Z = 2%Z.
 Proof. vm_compute. split; reflexivity. Qed.
+
+(* ================================================================== round 6: thermal kernel, equal solutions *)
+From PP Require Import Gen.KThermNp Gen.KThermNb Gen.KTSwitch C08.Unique C08.KernelMono C09.Thermal C09.Network.
+
+(* ------------------------------------------------------------------ 1c. reverse_branch, thermal calculation (T-tie) *)
+(* derivatives_thermal_np: a branch declared the other way round (node temperatures exchanged, flow negated; inlet and
+   outlet node chosen by FROM_NODE_T_SWITCHED := MDOTINIT < -2e-11 through get_from/to_nodes_corrected) has the same
+   residual fb, the same node contribution fnt and the same Jacobian entries, for every m *)
+Theorem thermal_reverse_branch : forall amb al DO L m Q TE TL cpb cpn nf tout tn Tf Tt,
+  therm_np_fb amb al DO L (- m) Q TE TL cpb cpn nf (t_inlet Tt Tf (- m)) tout tn (t_outnode Tt Tf (- m))
+  = therm_np_fb amb al DO L m Q TE TL cpb cpn nf (t_inlet Tf Tt m) tout tn (t_outnode Tf Tt m) /\
+  therm_np_dfb_dt amb al DO L (- m) Q TE TL cpb cpn nf (t_inlet Tt Tf (- m)) tout tn (t_outnode Tt Tf (- m))
+  = therm_np_dfb_dt amb al DO L m Q TE TL cpb cpn nf (t_inlet Tf Tt m) tout tn (t_outnode Tf Tt m) /\
+  therm_np_dfb_dtout amb al DO L (- m) Q TE TL cpb cpn nf (t_inlet Tt Tf (- m)) tout tn (t_outnode Tt Tf (- m))
+  = therm_np_dfb_dtout amb al DO L m Q TE TL cpb cpn nf (t_inlet Tf Tt m) tout tn (t_outnode Tf Tt m) /\
+  therm_np_fnt amb al DO L (- m) Q TE TL cpb cpn nf (t_inlet Tt Tf (- m)) tout tn (t_outnode Tt Tf (- m))
+  = therm_np_fnt amb al DO L m Q TE TL cpb cpn nf (t_inlet Tf Tt m) tout tn (t_outnode Tf Tt m) /\
+  therm_np_dfnt_dt amb al DO L (- m) Q TE TL cpb cpn nf (t_inlet Tt Tf (- m)) tout tn (t_outnode Tt Tf (- m))
+  = therm_np_dfnt_dt amb al DO L m Q TE TL cpb cpn nf (t_inlet Tf Tt m) tout tn (t_outnode Tf Tt m) /\
+  therm_np_dfnt_dtout amb al DO L (- m) Q TE TL cpb cpn nf (t_inlet Tt Tf (- m)) tout tn (t_outnode Tt Tf (- m))
+  = therm_np_dfnt_dtout amb al DO L m Q TE TL cpb cpn nf (t_inlet Tf Tt m) tout tn (t_outnode Tf Tt m).
+Proof. exact thermal_reversed_np. Qed.
+Print Assumptions thermal_reverse_branch.
+
+(* derivatives_thermal_numba: same; its node term fnt is not masked without flow, so fnt is claimed for |m| > 1e-10 *)
+Theorem thermal_reverse_branch_numba : forall amb al DO L m Q TE TL cpb cpn nf tout tn Tf Tt,
+  (therm_nb_fb amb al DO L (- m) Q TE TL cpb cpn nf (t_inlet Tt Tf (- m)) tout tn (t_outnode Tt Tf (- m))
+   = therm_nb_fb amb al DO L m Q TE TL cpb cpn nf (t_inlet Tf Tt m) tout tn (t_outnode Tf Tt m) /\
+   therm_nb_dfb_dt amb al DO L (- m) Q TE TL cpb cpn nf (t_inlet Tt Tf (- m)) tout tn (t_outnode Tt Tf (- m))
+   = therm_nb_dfb_dt amb al DO L m Q TE TL cpb cpn nf (t_inlet Tf Tt m) tout tn (t_outnode Tf Tt m) /\
+   therm_nb_dfb_dtout amb al DO L (- m) Q TE TL cpb cpn nf (t_inlet Tt Tf (- m)) tout tn (t_outnode Tt Tf (- m))
+   = therm_nb_dfb_dtout amb al DO L m Q TE TL cpb cpn nf (t_inlet Tf Tt m) tout tn (t_outnode Tf Tt m) /\
+   therm_nb_dfnt_dt amb al DO L (- m) Q TE TL cpb cpn nf (t_inlet Tt Tf (- m)) tout tn (t_outnode Tt Tf (- m))
+   = therm_nb_dfnt_dt amb al DO L m Q TE TL cpb cpn nf (t_inlet Tf Tt m) tout tn (t_outnode Tf Tt m) /\
+   therm_nb_dfnt_dtout amb al DO L (- m) Q TE TL cpb cpn nf (t_inlet Tt Tf (- m)) tout tn (t_outnode Tt Tf (- m))
+   = therm_nb_dfnt_dtout amb al DO L m Q TE TL cpb cpn nf (t_inlet Tf Tt m) tout tn (t_outnode Tf Tt m)) /\
+  (1 / 10000000000 < Rabs m ->
+   therm_nb_fnt amb al DO L (- m) Q TE TL cpb cpn nf (t_inlet Tt Tf (- m)) tout tn (t_outnode Tt Tf (- m))
+   = therm_nb_fnt amb al DO L m Q TE TL cpb cpn nf (t_inlet Tf Tt m) tout tn (t_outnode Tf Tt m)).
+Proof. exact thermal_reversed_nb. Qed.
+Print Assumptions thermal_reverse_branch_numba.
+
+(* ------------------------------------------------------------------ 7. equal solutions (network model of C08.Unique) *)
+
+(* reverse_branch, end to end: if (p, m) solves N, then p with the flows of the reversed branches negated solves the
+   net in which any subset of branches (mask) is declared the other way round ... *)
+Theorem reversed_net_has_reversed_solution : forall n slack pfix load bs p ms mask,
+  solves n slack pfix load bs p ms -> solves n slack pfix load (rev_where mask bs) p (neg_where mask ms).
+Proof. exact reversed_net_solution. Qed.
+Print Assumptions reversed_net_has_reversed_solution.
+
+(* ... and for strictly increasing laws it is THE solution of the reversed description *)
+Theorem reversed_net_solution_is_unique : forall n slack pfix load bs p ms mask p' ms',
+  in_range n bs -> Forall (fun b => strictly_increasing (phi b)) bs ->
+  solves n slack pfix load bs p ms -> solves n slack pfix load (rev_where mask bs) p' ms' ->
+  ms' = neg_where mask ms /\ forall i, Reach n slack (rev_where mask bs) i -> p' i = p i.
+Proof. exact reversed_net_unique. Qed.
+Print Assumptions reversed_net_solution_is_unique.
+
+(* tie to the generated kernel: the model branch of a liquid pipe / valve (no lift) is the vanishing of the generated
+   residual, its law is strictly increasing, and the pipe declared the other way round (ends, heights, ambient pressures
+   exchanged) is exactly [rev_branch] of it *)
+Theorem liquid_branch_of_the_kernel : forall f t A D eta k L zeta rho hf ht af at_,
+  (forall (p : nat -> R) m dl,
+     p f - p t + cst (incomp_branch f t A D eta k L zeta rho hf ht af at_)
+       = phi (incomp_branch f t A D eta k L zeta rho hf ht af at_) m
+     <-> hyd_incomp_np_load_vec A D (calc_lambda_incomp_np_lambda_tot A D eta k m) L zeta m 0 dl (hf - ht)
+           (p t + at_) (p f + af) rho = 0) /\
+  incomp_branch t f A D eta k L zeta rho ht hf at_ af = rev_branch (incomp_branch f t A D eta k L zeta rho hf ht af at_) /\
+  (0 < A -> 0 < D -> 0 < eta -> 0 < rho -> 0 < k -> k <> 371 / 100 * D -> 0 <= L -> 0 <= zeta -> 0 < L + zeta ->
+   strictly_increasing (phi (incomp_branch f t A D eta k L zeta rho hf ht af at_))).
+Proof.
+  intros. split; [|split].
+  - intros p m dl. exact (incomp_branch_law_is_residual f t A D eta k L zeta rho hf ht af at_ p m dl).
+  - apply incomp_branch_reversed.
+  - apply incomp_branch_mono.
+Qed.
+Print Assumptions liquid_branch_of_the_kernel.
+
+(* pressure_shift, end to end: raising all fixed pressures by c raises all pressures by c and leaves the flows; for
+   strictly increasing laws nothing else solves the shifted net *)
+Theorem pressure_shift_solution : forall n slack pfix load bs p ms c,
+  solves n slack pfix load bs p ms -> solves n slack (fun i => pfix i + c) load bs (fun i => p i + c) ms.
+Proof. exact pressure_shift_net. Qed.
+Print Assumptions pressure_shift_solution.
+
+Theorem pressure_shift_solution_is_unique : forall n slack pfix load bs p ms c p' ms',
+  in_range n bs -> Forall (fun b => strictly_increasing (phi b)) bs ->
+  solves n slack pfix load bs p ms -> solves n slack (fun i => pfix i + c) load bs p' ms' ->
+  ms' = ms /\ forall i, Reach n slack bs i -> p' i = p i + c.
+Proof. exact pressure_shift_unique. Qed.
+Print Assumptions pressure_shift_solution_is_unique.
+
+(* load_merge, end to end: the net in which every junction carries one sink with the summed scaled flow (Model.merged_sink)
+   has exactly the solutions of the net with the original sinks / sources / storages *)
+Theorem merged_loads_have_same_solutions : forall n slack pfix bs p ms tables (label : nat -> Z) js,
+  NoDup js -> (forall i, (i < n)%nat -> In (label i) js) ->
+  solves n slack pfix (fun i => Rtotal_load tables (label i)) bs p ms ->
+  solves n slack pfix (fun i => Rtotal_load [(1, map (Rmerged_sink tables) js)] (label i)) bs p ms.
+Proof. exact merged_loads_same_solutions. Qed.
+Print Assumptions merged_loads_have_same_solutions.
+
+(* sections / series, end to end: cutting a branch at a new load-free node into two branches whose laws and constants
+   add up to the original ones gives a net solved by the same pressures and flows (pressure of the new node
+   p fn + cst1 - phi1 m); repeated n-1 times this is the n-section / n-pipes-in-series description, and
+   sections_telescope says the code's section parameters add up in this way *)
+Theorem series_split_has_same_solution : forall n slack pfix load b rest p m ms phi1 phi2 cst1 cst2,
+  (fn b < n)%nat -> (tn b < n)%nat -> in_range n rest ->
+  (forall x, phi b x = phi1 x + phi2 x) -> cst b = cst1 + cst2 ->
+  solves n slack pfix load (b :: rest) p (m :: ms) ->
+  solves (S n) (split_slack n slack) pfix (split_load n load)
+         ({| fn := fn b; tn := n; phi := phi1; cst := cst1 |} :: {| fn := n; tn := tn b; phi := phi2; cst := cst2 |} :: rest)
+         (split_p n p (p (fn b) + cst1 - phi1 m)) (m :: m :: ms).
+Proof. exact series_split_solution. Qed.
+Print Assumptions series_split_has_same_solution.
+
+(* non-vacuity: a meshed net with a parallel pair solved exactly; its reversal (branches 0 and 2), its shift by 3/2 and the
+   split of its first branch are solved by the transformed solutions *)
+Definition lin (k : R) : R -> R := fun m => k * m.
+Definition ex_b0 : branch := {| fn := 0; tn := 1; phi := lin 1; cst := 0 |}.
+Definition ex_bs : list branch := [ ex_b0; ex_b0; {| fn := 1; tn := 2; phi := lin 2; cst := 0 |} ].
+Definition ex_p : nat -> R := fun i => match i with O => 5 | S O => 4 | _ => 0 end.
+Example ex_solves : solves 3 (fun i => Nat.eqb i 0) (fun _ => 5) (fun i => if Nat.eqb i 2 then 2 else 0) ex_bs ex_p [1; 1; 2].
+Proof.
+  constructor.
+  - reflexivity.
+  - intros i Hi Hs. destruct i as [|[|[|]]]; simpl in *; try discriminate; try lia; reflexivity.
+  - intros i Hi Hs. destruct i as [|[|[|]]]; simpl in *; try discriminate; unfold ind; simpl; lra.
+  - repeat constructor; simpl; unfold lin; lra.
+Qed.
+Example ex_reversed : solves 3 (fun i => Nat.eqb i 0) (fun _ => 5) (fun i => if Nat.eqb i 2 then 2 else 0)
+                             (rev_where [true; false; true] ex_bs) ex_p [-1; 1; -2]
+                      /\ fn (nth 2 (rev_where [true; false; true] ex_bs) ex_b0) = 2%nat.
+Proof.
+  split; [|reflexivity].
+  replace [-1; 1; -2] with (neg_where [true; false; true] [1; 1; 2]) by (simpl; repeat f_equal; lra).
+  apply reversed_net_has_reversed_solution. exact ex_solves.
+Qed.
+Example ex_shifted : solves 3 (fun i => Nat.eqb i 0) (fun i => 5 + 3 / 2) (fun i => if Nat.eqb i 2 then 2 else 0) ex_bs
+                            (fun i => ex_p i + 3 / 2) [1; 1; 2].
+Proof. exact (pressure_shift_solution _ _ _ _ _ _ _ (3 / 2) ex_solves). Qed.
+Example ex_split : solves 4 (split_slack 3 (fun i => Nat.eqb i 0)) (fun _ => 5) (split_load 3 (fun i => if Nat.eqb i 2 then 2 else 0))
+                          ({| fn := 0; tn := 3; phi := lin (1 / 4); cst := 0 |} :: {| fn := 3; tn := 1; phi := lin (3 / 4); cst := 0 |} :: tl ex_bs)
+                          (split_p 3 ex_p (5 + 0 - lin (1 / 4) 1)) [1; 1; 1; 2].
+Proof.
+  apply (series_split_has_same_solution 3 _ _ _ ex_b0 (tl ex_bs) ex_p 1 [1; 2] (lin (1 / 4)) (lin (3 / 4)) 0 0);
+    simpl; try lia; try lra.
+  - repeat constructor.
+  - intros x. unfold lin. lra.
+  - exact ex_solves.
+Qed.
+(* the thermal switch: a branch with flow reads the same physical inlet in both declarations *)
+Example ex_thermal_inlet : t_inlet 350 320 (1 / 2) = 350 /\ t_inlet 320 350 (- (1 / 2)) = 350.
+Proof.
+  unfold t_inlet, corrected_from, t_switched, t_switch_threshold. split.
+  - destruct (Rltb_spec (1 / 2) ((- 1) / 50000000000)); [lra|reflexivity].
+  - destruct (Rltb_spec (- (1 / 2)) ((- 1) / 50000000000)); [reflexivity|lra].
+Qed.
